@@ -176,6 +176,11 @@ func c17cRun(w *kernel.Worker, j *c17cJob, rep *kernel.Report) (*Fail, error) {
 	if strings.HasPrefix(xAns, "wrong") {
 		fs.Add("C17/lifecycle-wrong-answer/"+j.Scenario+"/"+site, ctx+": the held query returned neither its complete answer nor an error/cancellation: "+xAns)
 	}
+	if (j.Scenario == "timeout" || j.Scenario == "timeout-watcher") && xAns == "cancelled" {
+		// nobody cancelled this query: the only thing that happened to it is that its time limit expired. It has to be
+		// answered or rejected; a missing answer without an error is what a client-side cancellation looks like
+		fs.Add("C17/timeout-ends-without-answer-or-error/"+j.Scenario, ctx+": the query's 1 s time limit expired and nobody cancelled it; the call returned no response and no error (the way a cancelled query ends), so the client gets neither an answer nor a rejection")
+	}
 	final := r.Post[len(r.Post)-1]
 	switch j.Scenario {
 	case "timeout-watcher":
